@@ -388,13 +388,18 @@ func TestUDPLostThenAnswered(t *testing.T) {
 	type ucase struct {
 		step uint8 // payload type whose replies are dropped, 0 = a session-less command
 		k    int
+		busy bool // the first k transmissions are answered "node busy" instead of being lost
 	}
 	var cases []ucase
 	for _, st := range []uint8{0, ref.PTOpenReq, ref.PTRAKP1, ref.PTRAKP3} {
 		for _, k := range []int{1, 2} {
-			cases = append(cases, ucase{st, k})
+			cases = append(cases, ucase{st, k, false})
 		}
 	}
+	// a long run of temporary codes under the library's own exponential back-off
+	// (the sleeps add up to 5-16 s for six replies, 12-37 s for eight): the command
+	// must still be re-sent until the final answer comes
+	cases = append(cases, ucase{0, ev.Pick(6, 8), true})
 	var wg sync.WaitGroup
 	var mu sync.Mutex
 	var firstMsg string
@@ -420,6 +425,9 @@ func TestUDPLostThenAnswered(t *testing.T) {
 						seen = append(seen, rx.Raw)
 						if dropped < c.k {
 							dropped++
+							if c.busy && rx.Msg != nil {
+								return []udpnet.Reply{{Data: b.Wrap(nil, b.ResponseFor(rx.Msg, 0xC0, nil).Bytes()).Data}}
+							}
 							return nil
 						}
 					}
@@ -434,7 +442,7 @@ func TestUDPLostThenAnswered(t *testing.T) {
 					return ""
 				}
 				defer tr.Close()
-				ctx, cancel := context.WithTimeout(context.Background(), 20*time.Second)
+				ctx, cancel := context.WithTimeout(context.Background(), 120*time.Second)
 				defer cancel()
 				if c.step == 0 {
 					_, err = tr.GetSystemGUID(ctx)
@@ -444,6 +452,9 @@ func TestUDPLostThenAnswered(t *testing.T) {
 				srv.Lock()
 				defer srv.Unlock()
 				where := fmt.Sprintf("UDP, replies to the first %d transmissions of payload type %#x lost", c.k, c.step)
+				if c.busy {
+					where = fmt.Sprintf("UDP, the first %d transmissions answered with node busy", c.k)
+				}
 				if err != nil {
 					return fmt.Sprintf("%s: call failed although the BMC answered transmission %d: %v (BMC saw %d transmissions)", where, c.k+1, err, len(seen))
 				}
